@@ -206,4 +206,21 @@ theorem c02_documented_examples (cc : CC) (op : Rot) (n : Nat) :
     cyclesOf (.bit n .hlm) true = 3 := by
   simp [cyclesOf]
 
+/-! ### the same statements for the tables regenerated from dispatch.go (`c01_tables : Tables.gen = specTables`) -/
+
+theorem c02_run_gen (c : Cpu) (m : Flat) (h : AtFetch c m)
+    (hops : MicroOp.fatal ∉ (fetch Tables.gen c c.regs m).cpu.ops) :
+    let f := fetch Tables.gen c c.regs m
+    let n := match f.cpu.early with
+      | none => f.cpu.ops.length
+      | some e => if e.1.holds (runList (f.cpu.ops.take e.2.1) f.cpu.regs f.bus).1 then e.2.1
+                  else f.cpu.ops.length
+    0 < n ∧ n ≤ f.cpu.ops.length ∧
+    (∀ k, 0 < k → k < n → (cycles Tables.gen k c m).1.isFinished = false) ∧
+    (cycles Tables.gen n c m).1.isFinished = true ∧
+    (cycles Tables.gen n c m).1.crashed = false ∧
+    (cycles Tables.gen n c m).1.regs = (runList (f.cpu.ops.take n) f.cpu.regs f.bus).1 ∧
+    (cycles Tables.gen n c m).2 = (runList (f.cpu.ops.take n) f.cpu.regs f.bus).2 := by
+  rw [C01.c01_tables]; exact c02_run c m h (by rw [← C01.c01_tables]; exact hops)
+
 end Tetro.C02
